@@ -524,6 +524,8 @@ func c08(c *Ctx) {
 			}
 		})
 		r.Check(okCmp, "R3.order-exclusion", cname+" comparator", p.Pos(cf.Pos()), "sorted by LogDist(node[i], id) < LogDist(node[j], id)", detail)
+		wUnsorted := unsortedReturn(cf)
+		r.Check(wUnsorted == nil, "R3.order-exclusion", cname+" sorted-on-every-return", p.Pos(cf.Pos()), "every non-nil list returned passed the sort", "a list can be returned without having been sorted (callers take its head as 'the closest'): "+p.PathString(wUnsorted))
 		// requester exclusion before truncation
 		req := H.Params[1]
 		sameID := core.AnyFact(func(f core.Fact) bool {
@@ -1092,4 +1094,26 @@ func loadsCellOf(v ssa.Value, call *ssa.Call) bool {
 		}
 	}
 	return false
+}
+
+// unsortedReturn returns a witness path on which fn returns a non-nil list that never passed a
+// sort.Slice/SliceStable call (nil when every such return is preceded by the sort).
+func unsortedReturn(fn *ssa.Function) []*ssa.BasicBlock {
+	isSort := func(in ssa.Instruction) bool {
+		ci, ok := in.(ssa.CallInstruction)
+		if !ok {
+			return false
+		}
+		id := core.CalleeID(ci)
+		return id == "sort.Slice" || id == "sort.SliceStable" || id == "slices.SortFunc" || id == "slices.SortStableFunc" || id == "sort.Sort" || id == "sort.Stable"
+	}
+	for _, ret := range core.Returns(fn) {
+		if len(ret.Results) == 0 || core.IsNilConst(ret.Results[0]) {
+			continue
+		}
+		if w := core.MustPassBefore(ret, isSort); w != nil {
+			return w
+		}
+	}
+	return nil
 }
